@@ -145,6 +145,12 @@ def build(shape):
         envs, kind = PIPES[shape[2:]]()
         lrns = [RandomLearner(seed=3), PmfLearner()] if kind == 'igl' else [BanditEpsilonLearner(0.3, seed=6), PmfLearner()]
         return ('cross', envs, lrns, _pipe_evaluator(kind))
+    if shape.startswith('L:'):
+        return ('cross', (_syn0(5, 1) + _syn0(4, 2)).binary() if 'corral' in shape else _env_for('sim'), [_learners()[shape[2:]](), RandomLearner(seed=3)], SequentialCB(record=['reward', 'action', 'probability']))
+    if shape.startswith('V:'):
+        val, kind = _evaluators()[shape[2:]]()
+        lrns = [RandomLearner(seed=3), PmfLearner()] if kind == 'igl' else [BanditEpsilonLearner(0.3, seed=6), PmfLearner()]
+        return ('cross', _env_for(kind), lrns, val)
     raise ValueError(shape)
 
 
@@ -230,4 +236,47 @@ def _pipe_evaluator(kind):
     if kind == 'ips': return SequentialCB(learn='off', eval='ips', record=['reward', 'action', 'probability'])
     if kind == 'reject': return RejectionCB(seed=11)
     if kind == 'igl': return SequentialIGL(seed=4)
+    raise ValueError(kind)
+
+
+# ---------------------------------------------------------------- learner / evaluator alphabets (C01 'L:<name>' / 'V:<name>' shapes)
+def _learners():
+    from coba.learners import FixedLearner, CorralLearner, MisguidedLearner
+    return {
+        'fixed':        lambda: FixedLearner([.2, .3, .5], seed=4),
+        'ucb':          lambda: BanditUCBLearner(seed=3),
+        'epsilon':      lambda: BanditEpsilonLearner(0.4, seed=9),
+        'corral-imp':   lambda: CorralLearner([RandomLearner(seed=2), BanditEpsilonLearner(0.2, seed=4)], eta=.1, T=50, mode='importance', seed=5),
+        'corral-off':   lambda: CorralLearner([RandomLearner(seed=2), BanditUCBLearner(seed=4)], eta=.05, mode='off-policy', seed=6),
+        'misguided':    lambda: MisguidedLearner(BanditEpsilonLearner(0.2, seed=3), 1, -1),
+        'kwargs':       lambda: KwargsLearner(),
+        'info':         lambda: InfoLearner(),
+    }
+
+
+def _evaluators():
+    from coba.evaluators import SequentialIGL
+    return {
+        'cb-seed':       lambda: (SequentialCB(seed=5), 'sim'),
+        'cb-record':     lambda: (SequentialCB(record=['reward', 'probability', 'action', 'context', 'actions', 'rewards'], seed=2.5), 'sim'),
+        'cb-learn-none': lambda: (SequentialCB(learn=None, eval='on'), 'sim'),
+        'cb-off-ips':    lambda: (SequentialCB(learn='off', eval='ips', seed=3), 'log'),
+        'cb-ips-ips':    lambda: (SequentialCB(learn='ips', eval='ips'), 'log'),
+        'cb-ips-on':     lambda: (SequentialCB(learn='ips', eval='on', seed=8), 'log'),
+        'reject-seed':   lambda: (RejectionCB(record=['context', 'actions', 'action', 'reward', 'probability'], cpct=.1, cmax=.9, cinit=.5, seed=3), 'log'),
+        'reject-dflt':   lambda: (RejectionCB(), 'log'),
+        'igl-seed':      lambda: (SequentialIGL(record=['reward', 'feedback', 'prob', 'action'], seed=6), 'igl'),
+        'summary':       lambda: (SummaryEvaluator(), 'sim'),
+        'counting':      lambda: (CountingEvaluator('z'), 'sim'),
+    }
+
+
+LEARNERS = list(_learners())
+EVALUATORS = list(_evaluators())
+
+
+def _env_for(kind):
+    if kind == 'sim': return _syn(5, 1) + _syn0(4, 2)
+    if kind == 'log': return _logged(7, 3) + _syn(6, 2).logged(BanditEpsilonLearner(0.5, seed=2), seed=4)
+    if kind == 'igl': return _syn0(6, 1).binary().grounded(4, 2, 5, 2, seed=3)
     raise ValueError(kind)
